@@ -239,7 +239,7 @@ theorem cS_scopes_tail (mod : String) : ∀ (n : Nat),
         cases e
         case assign asp op l r =>
           cases op <;> cases l <;> try rfl
-          all_goals (rename_i g _ _; cases g <;> rfl)
+          all_goals (rename_i g _ sg; cases g <;> cases sg <;> rfl)
         case ifE isp ty c t el =>
           cases el with
           | some eb =>
@@ -306,7 +306,7 @@ theorem cS_vm_mono (mod : String) : ∀ (n : Nat),
         cases e
         case assign asp op l r =>
           cases op <;> cases l <;> try exact Nat.le_refl _
-          all_goals (rename_i g _ _; cases g <;> exact Nat.le_refl _)
+          all_goals (rename_i g _ sg; cases g <;> cases sg <;> exact Nat.le_refl _)
         case ifE isp ty c t el =>
           cases el with
           | some eb =>
